@@ -114,6 +114,44 @@ Theorem C19_toc_image_verifies :
 Proof. intros blob H len payload etoc verifies k ls os st0 d. exact (toc_image_verifies H len payload etoc verifies k ls os st0 d). Qed.
 Print Assumptions C19_toc_image_verifies.
 
+(* finalize called any number of times anywhere in a schedule (after failed calls, for further references, with further
+   layer conversions in between): the call returns an error iff the reference does not parse; otherwise it returns the image
+   of everything recorded SO FAR — exactly one entry per layer digest, every digest recorded before the call served the
+   TOC of a conversion of that digest, nothing else — and, failed or not, it consumes nothing. *)
+Theorem C19_every_finalize_maps_all_layers_so_far :
+  forall (blob : Type) (H len : blob -> N) (payload : blob -> blob) (etoc : blob -> N * N)
+         (k : kind) (ls : list (@layer blob)) (os1 : list op) (refok : bool) (os2 : list op) (st0 : st) (d : N),
+    smap st0 = [] ->
+    let img := finalize (smap (exec H len payload etoc k ls st0 os1)) in
+    fin_outputs H len payload etoc k ls st0 (os1 ++ Finalize refok :: os2)
+      = fin_outputs H len payload etoc k ls st0 os1
+        ++ (if refok then Some img else None) :: fin_outputs H len payload etoc k ls (exec H len payload etoc k ls st0 os1) os2
+    /\ NoDup (map fst img)
+    /\ ((exists b, records_to H len payload k ls os1 d b) ->
+          exists b, records_to H len payload k ls os1 d b /\ fetch img d = Some (etoc b))
+    /\ (forall t, In (d, t) img -> exists b, records_to H len payload k ls os1 d b /\ t = etoc b).
+Proof. intros blob H len payload etoc k ls os1 refok os2 st0 d. exact (every_finalize H len payload etoc k ls os1 refok os2 st0 d). Qed.
+Print Assumptions C19_every_finalize_maps_all_layers_so_far.
+
+Theorem C19_finalize_is_read_only :
+  forall (blob : Type) (H len : blob -> N) (payload : blob -> blob) (etoc : blob -> N * N)
+         (k : kind) (ls : list (@layer blob)) (os1 : list op) (refok : bool) (os2 : list op) (s : st),
+    exec H len payload etoc k ls s (os1 ++ Finalize refok :: os2) = exec H len payload etoc k ls s (os1 ++ os2).
+Proof. intros blob H len payload etoc k ls os1 refok os2 s. exact (finalize_is_read_only H len payload etoc k ls os1 refok os2 s). Qed.
+Print Assumptions C19_finalize_is_read_only.
+
+(* Layers converted after a finalize appear in the next one TOGETHER with the earlier ones: a digest recorded before one
+   call is still served after any continuation of the schedule. *)
+Theorem C19_finalize_accumulates :
+  forall (blob : Type) (H len : blob -> N) (payload : blob -> blob) (etoc : blob -> N * N)
+         (k : kind) (ls : list (@layer blob)) (os1 os2 : list op) (st0 : st) (d : N),
+    smap st0 = [] ->
+    (exists b, records_to H len payload k ls os1 d b) ->
+    exists b, records_to H len payload k ls (os1 ++ os2) d b
+              /\ fetch (finalize (smap (exec H len payload etoc k ls st0 (os1 ++ os2)))) d = Some (etoc b).
+Proof. intros blob H len payload etoc k ls os1 os2 st0 d. exact (finalize_accumulates H len payload etoc k ls os1 os2 st0 d). Qed.
+Print Assumptions C19_finalize_accumulates.
+
 (* Duplicate keys (same converted digest from several layers or from a retry): the last writer for that key wins. *)
 Theorem C19_toc_image_last_writer_wins :
   forall (blob : Type) (H len : blob -> N) (payload : blob -> blob) (etoc : blob -> N * N)
@@ -235,6 +273,16 @@ Proof.
   exists 1, (mkLay DkZst (mkBlob 2 90 22 800 None 0 0 0) (Some (mkBlob 12 200 22 800 (Some Gz) 32 42 60))).
   repeat split; try reflexivity; [right; right; left; reflexivity|eexists; reflexivity].
 Qed.
+
+(* finalize three times: failed, then ok after layer 0 only, then ok after both layers *)
+Example C19_nonvacuous_finalize :
+  let b0 := mkBlob 11 100 21 400 (Some Gz) 31 41 50 in
+  let b1 := mkBlob 12 200 22 800 (Some Gz) 32 42 60 in
+  let ls := [mkLay OciTar (mkBlob 1 400 21 400 None 0 0 0) (Some b0); mkLay OciGz (mkBlob 2 90 22 800 None 0 0 0) (Some b1)] in
+  fin_outputs cH cLen cPayload cEtoc KExt ls (mkSt [] [])
+    [Commit 0; Record 0; Finalize false; Finalize true; Commit 1; Record 1; Finalize true]
+  = [None; Some [(11, (41, 50))]; Some [(11, (41, 50)); (12, (42, 60))]]%N.
+Proof. vm_compute. reflexivity. Qed.
 
 (* The lossless check is a real condition: a builder output with another DiffID yields no descriptor. *)
 Example C19_nonvacuous_lossless :
